@@ -60,7 +60,9 @@ Explained(e) ==
       [] e.ev = "RoundTrip"     -> RoundTripOk(e)
       [] e.ev = "MsgDigestPair" -> MsgPairOk(e)
       [] e.ev = "MsgDigestSet"  -> MsgSetOk(e)
-      [] e.ev = "Keys"          -> e.names = H!KeyNames
+      [] e.ev = "Keys"          -> \* not part of the property: a changed label only means the spec's
+                                   \* transcription of the key names is out of date (SPEC-DRIFT)
+                                   e.names = H!KeyNames \/ PrintT(<<"DRIFT", ToJson([what |-> "protocol message part key labels differ from CertHash!KeyNames", names |-> e.names])>>)
       [] OTHER -> FALSE
 
 TEvent ==
